@@ -3,6 +3,7 @@ import Pdlv.Json
 import Pdlv.Enum
 import Pdlv.Resolve
 import Pdlv.Ref
+import Pdlv.Inherit
 
 namespace Pdlv.Driver
 open Lean (Json)
@@ -162,6 +163,49 @@ def handle (st : State) (req : Json) : Except String (State × Json) := do
           ("payload_size", sizeJ ds.sizes.payloadSize), ("total_size", sizeJ ds.sizes.total),
           ("fields", Json.arr fieldsJ.toArray)]
       pure (st, Json.mkObj [("status", "ok"), ("schema", Json.arr declJ.toArray)])
+  | "inherit" =>
+    let f ← getFile st
+    let mode : Mode := match J.str req "mode" with
+      | .ok "ideal" => .ideal
+      | _ => .rust
+    let cfg : Cfg := { e := f.endian, mode := mode }
+    let cases ← J.arr req "cases"
+    let optN : Option Nat → Json := fun o => match o with | some n => Json.num n | none => Json.null
+    let outs ← cases.mapM fun c => do
+      let k ← J.str c "k"
+      let ty ← J.str c "type"
+      match k with
+      | "spec" =>
+        let v ← valueOfJson (← c.getObjVal? "v")
+        match Inherit.specialize cfg f ty v with
+        | .ok none => pure (Json.mkObj [("r", "ok"), ("child", Json.null)])
+        | .ok (some (cid, cv)) => pure (Json.mkObj [("r", "ok"), ("child", Json.str cid), ("value", jsonOfValue cv)])
+        | .err e => pure (Json.mkObj [("r", "err"), ("e", Json.str (decErrName e))])
+        | .panic h => pure (Json.mkObj [("r", "panic"), ("h", Json.str (hazardName h))])
+      | "from" =>
+        let v ← valueOfJson (← c.getObjVal? "v")
+        match Inherit.fromParent cfg f ty v with
+        | .ok cv => pure (Json.mkObj [("r", "ok"), ("value", jsonOfValue cv)])
+        | .err e => pure (Json.mkObj [("r", "err"), ("e", Json.str (decErrName e))])
+        | .panic h => pure (Json.mkObj [("r", "panic"), ("h", Json.str (hazardName h))])
+      | "to" =>
+        let v ← valueOfJson (← c.getObjVal? "v")
+        match Inherit.toParent cfg f ty v with
+        | .ok pv => pure (Json.mkObj [("r", "ok"), ("value", jsonOfValue pv)])
+        | .err e => pure (Json.mkObj [("r", "err"), ("e", Json.str (encErrName e))])
+        | .panic h => pure (Json.mkObj [("r", "panic"), ("h", Json.str (hazardName h))])
+      | "table" =>
+        match f.lookup ty, Schema.build f with
+        | some d, some sc =>
+          match Inherit.table f sc d with
+          | none => pure (Json.mkObj [("r", "ambiguous")])
+          | some (ids, withSize, arms) =>
+            pure (Json.mkObj [("r", "ok"), ("ids", Json.arr (ids.map Json.str).toArray), ("with_size", Json.bool withSize),
+              ("arms", Json.arr (arms.map fun a => Json.mkObj [("child", Json.str a.child),
+                ("pats", Json.arr (a.pats.map fun p => Json.mkObj [("t", Json.arr (p.1.map optN).toArray), ("len", optN p.2)]).toArray)]).toArray)])
+        | _, _ => pure (Json.mkObj [("r", "none")])
+      | _ => throw s!"unknown inherit case {k}"
+    pure (st, Json.mkObj [("status", "ok"), ("out", Json.arr outs.toArray)])
   | "types" =>
     -- which declarations the Rust model supports
     let f ← getFile st
